@@ -103,6 +103,7 @@ def main():
     cmd = [spec['bam'], '-o', spec['out'], '-method', spec['method'], '-temp_folder', spec['temp']]
     if spec.get('multiprocess'):
         cmd += ['--multiprocess', '-tagthreads', str(spec.get('threads', 2))]
+    cmd += list(spec.get('extra_args', []))
     log({'proc': 'main', 'event': 'start'})
     try:
         btm.run_multiome_tagging_cmd(cmd)
